@@ -944,7 +944,60 @@ fn discharge_constants(cx: &mut Ctx) {
         } else {
             cx.fail(rule, &format!("{}/expected-index", rule), &p.rel, "expected[0] is not guarded by expected.len() == 1");
         }
-        if t.contains("letstatement=matchstatements.len(){0=>") && t.contains("1=>statements.pop().unwrap(),_=>returnErr(ParseError{error:ParseErrorType::InvalidToken,offset:statements[1].range().start(),") {
+        // length-dependent accesses sit in the arm that fixes the length: in every `match X.len()`, an index X[k]
+        // needs an arm that guarantees len > k, X.pop().unwrap() an arm that guarantees len >= 1
+        let mut len_ok = true;
+        let mut len_matches = 0;
+        struct LV<'a> {
+            ok: &'a mut bool,
+            n: &'a mut usize,
+        }
+        impl<'a, 'ast> syn::visit::Visit<'ast> for LV<'a> {
+            fn visit_expr_match(&mut self, m: &'ast syn::ExprMatch) {
+                let sc = sm::tsc(&m.expr);
+                if let Some(var) = sc.strip_suffix(".len()") {
+                    *self.n += 1;
+                    let mut lits: Vec<usize> = vec![];
+                    for a in &m.arms {
+                        let pt = sm::tsc(&a.pat);
+                        let min_len = match pt.parse::<usize>() {
+                            Ok(k) => {
+                                lits.push(k);
+                                k
+                            }
+                            Err(_) => {
+                                // wildcard after the literals 0..=m: len > m
+                                let mut m0 = 0;
+                                while lits.contains(&m0) {
+                                    m0 += 1;
+                                }
+                                m0
+                            }
+                        };
+                        let body = sm::tsc(&a.body);
+                        for (i, _) in body.match_indices(&format!("{}[", var)) {
+                            let k: String = body[i + var.len() + 1..].chars().take_while(|c| c.is_ascii_digit()).collect();
+                            match k.parse::<usize>() {
+                                Ok(k) if k < min_len => {}
+                                _ => *self.ok = false,
+                            }
+                        }
+                        if body.contains(&format!("{}.pop().unwrap()", var)) && min_len < 1 {
+                            *self.ok = false;
+                        }
+                    }
+                }
+                syn::visit::visit_expr_match(self, m);
+            }
+        }
+        use syn::visit::Visit;
+        LV { ok: &mut len_ok, n: &mut len_matches }.visit_file(&p.file);
+        let unguarded = {
+            // the same accesses outside any `match X.len()` would be unguarded
+            let whole = t.text.clone();
+            whole.matches("statements[").count() != 1 || whole.matches("statements.pop().unwrap()").count() != 1
+        };
+        if len_ok && len_matches >= 1 && !unguarded {
             cx.ok(rule, "D.lenmatch: pop().unwrap() in the arm len == 1, statements[1] in the arm len >= 2");
         } else {
             cx.fail(rule, &format!("{}/stmt-len", rule), &p.rel, "Stmt::parse_tokens indexes/pops outside the arm that fixes the length");
